@@ -29,6 +29,11 @@ mutual
     | vector (t : ETy) (len : Option Nat)
     | array (t : ETy) (k : ArrKind)
     | map (k v : ETy)
+    /-- a type parameter of the enclosing generic definition (by position) -/
+    | tparam (i : Nat)
+    /-- a generic record applied to type arguments: `args` by parameter position, `body` the fields of the
+        (open) generic definition, in which the parameters occur as `tparam` -/
+    | inst (name : Nat) (args : EFields) (body : EFields)
   inductive EFields
     | nil
     | cons (name : Nat) (t : ETy) (rest : EFields)
@@ -229,6 +234,15 @@ def recordOldChanged (newFs : List (Nat × ETy)) : List (Nat × ETy) → Nat →
 def recordChange (newFs oldFs : List (Nat × ETy)) : Cls :=
   if newFs.any (fun e => (lookupField oldFs e.1).isNone) || recordOldChanged f newFs oldFs 0 then .defChanged else .same
 
+/-- compareSemanticallyEquivalentTypes on type arguments: each pair must be unchanged or a changed definition;
+    `some true` when at least one argument's definition changed, `none` when the arguments are not compatible -/
+def argsChange : List (Nat × ETy) → List (Nat × ETy) → Option Bool
+  | [], [] => some false
+  | a :: r, a' :: r' =>
+    let c := f a.2 a'.2
+    if c.matches then (argsChange r r').map (fun b => b || c == .defChanged) else none
+  | _, _ => none
+
 end
 
 def arrKindSame : ArrKind → ArrKind → Bool
@@ -247,6 +261,14 @@ def cmp : Nat → ETy → ETy → Cls
     | .prim a, .prim b => primChange a b
     | .enum n fl b s, .enum n' fl' b' s' => if n = n' then enumChange fl b s fl' b' s' else .error
     | .record n fs, .record n' fs' => if n = n' then recordChange f fs.toList fs'.toList else .error
+    -- generic type parameters are compared by name, instantiated generics by definition and argument-wise
+    | .tparam i, .tparam j => if i = j then .same else .error
+    | .inst n as b, .inst n' as' b' =>
+      if n = n' then
+        match argsChange f as.toList as'.toList with
+        | none => .error
+        | some argChanged => if recordChange f b.toList b'.toList != .same || argChanged then .defChanged else .same
+      else .error
     -- dimensioned against dimensioned
     | .vector t len, .vector t' len' =>
       let inner := f t t'
@@ -294,6 +316,8 @@ mutual
     | .vector t _ => depth t + 1
     | .array t _ => depth t + 1
     | .map k v => max (depth k) (depth v) + 1
+    | .tparam _ => 1
+    | .inst _ a b => max (depthF a) (depthF b) + 1
   def depthF : EFields → Nat
     | .nil => 0
     | .cons _ t r => max (depth t) (depthF r)
@@ -347,6 +371,14 @@ def defsSev (newEnv : Env) : Nat → ETy → Sev
     | .vector t _ => defsSev newEnv fuel t
     | .array t _ => defsSev newEnv fuel t
     | .map k v => (defsSev newEnv fuel k).max (defsSev newEnv fuel v)
+    | .tparam _ => .ok
+    | .inst n as b =>
+      -- the (open) generic definition is compared once with its same-named counterpart; the arguments are walked as well
+      let own := match newEnv.find n with
+        | some (.inst _ as' b') => recordSev (cmp (depth (.inst n as' b') + depth (.inst n as b))) b'.toList b.toList
+        | _ => .ok
+      let s1 := as.toList.foldl (fun acc e => acc.max (defsSev newEnv fuel e.2)) own
+      b.toList.foldl (fun acc e => acc.max (defsSev newEnv fuel e.2)) s1
 
 /-- verdict for a protocol step whose type changed from `old` to `new` -/
 def stepVerdict (newEnv : Env) (new old : ETy) : Sev :=
@@ -443,6 +475,9 @@ def zero : Nat → ETy → Val
        | .rank n => .arr (List.replicate n 0) []
        | .dynamic => .arr [] [zero fuel t])   -- a default xt::xarray is 0-dimensional and holds one element
     | .map _ _ => .map []
+    -- generic instances are substituted before values are looked at (the harness inlines them)
+    | .tparam _ => .none
+    | .inst _ _ _ => .none
 
 def digitsOk (bs : List UInt8) : Bool := !bs.isEmpty && bs.all fun b => 48 ≤ b.toNat && b.toNat ≤ 57
 
@@ -508,6 +543,18 @@ def CRes.map (f : Val → Val) : CRes → CRes
   | .ok v => .ok (f v)
   | e => e
 
+/-- record conversion: every destination field takes the converted value of the source field of the same
+    name, or the zero value when there is none -/
+def convFields (c : ETy → ETy → Val → CRes) (svals : List ((Nat × ETy) × Val)) : List (Nat × ETy) → List Val → CRes
+  | [], acc => .ok (.record acc.reverse)
+  | (n, dt) :: r, acc =>
+    match svals.find? (fun e => e.1.1 == n) with
+    | some ((_, st), sv) =>
+      (match c st dt sv with
+       | .ok x => convFields c svals r (x :: acc)
+       | e => e)
+    | none => convFields c svals r (zero (depth dt + 1) dt :: acc)
+
 def conv (reading : Bool) : Nat → ETy → ETy → Val → CRes
   | 0, _, _, _ => .unsupported "fuel"
   | fuel + 1, src, dst, v =>
@@ -518,17 +565,7 @@ def conv (reading : Bool) : Nat → ETy → ETy → Val → CRes
     | .prim a, .prim b, v => convPrim a b v
     | .enum _ _ _ _, .enum _ _ _ _, v => .ok v
     | .record _ sfs, .record _ dfs, .record vs =>
-      let svals := sfs.toList.zip vs
-      let rec go : List (Nat × ETy) → List Val → CRes
-        | [], acc => .ok (.record acc.reverse)
-        | (n, dt) :: r, acc =>
-          match svals.find? (fun e => e.1.1 == n) with
-          | some ((_, st), sv) =>
-            (match c st dt sv with
-             | .ok x => go r (x :: acc)
-             | e => e)
-          | none => go r (zero (depth dt + 1) dt :: acc)
-      go dfs.toList []
+      convFields c (sfs.toList.zip vs) dfs.toList []
     | .vector st _, .vector dt _, .list vs => mapM' (c st dt) vs []
     | .array _ _, .array _ _, v => .ok v
     | .map _ _, .map _ _, v => .ok v
@@ -583,5 +620,73 @@ def conv (reading : Bool) : Nat → ETy → ETy → Val → CRes
        | some j => (c st ((dcs.toList.getD j none).getD st) v).map (.case (ofFull dcs.toList j))
        | none => .unsupported "no matching union case")
     | _, _, _ => .unsupported "shape"
+
+end Yardl.Evo
+
+/-! ### well-formedness and typing predicates (hypotheses of the reflexivity theorems of C05 / C06)
+
+  `wfT`: field names of every record are distinct, symbol names of every enum are distinct, every union
+  has at least one case — what the validator enforces before evolution is looked at.
+  `fitsT t v`: the value has the shape of the type (what a generated writer accepts). -/
+
+namespace Yardl.Evo
+open Yardl
+
+def namesDistinct {α : Type} : List (Nat × α) → Bool
+  | [] => true
+  | e :: r => !(r.any fun x => x.1 == e.1) && namesDistinct r
+
+mutual
+  def wfT : ETy → Bool
+    | .prim _ => true
+    | .enum _ _ _ syms => namesDistinct syms
+    | .record _ fs => namesDistinct fs.toList && wfF fs
+    | .optional t => wfT t
+    | .union cs => !cs.toList.isEmpty && wfC cs
+    | .vector t _ => wfT t
+    | .array t _ => wfT t
+    | .map k v => wfT k && wfT v
+    | .tparam _ => true
+    | .inst _ a b => namesDistinct b.toList && wfF b && wfF a
+  def wfF : EFields → Bool
+    | .nil => true
+    | .cons _ t r => wfT t && wfF r
+  def wfC : ECases → Bool
+    | .nil => true
+    | .null r => wfC r
+    | .cons t r => wfT t && wfC r
+end
+
+def stepNamesDistinct : List EStep → Bool
+  | [] => true
+  | s :: r => !(r.any fun x => x.name == s.name) && stepNamesDistinct r
+
+-- the value has the shape of the type (what a generated writer accepts)
+mutual
+  def fitsT : ETy → Val → Bool
+    | .prim _, _ => true
+    | .enum _ _ _ _, _ => true
+    | .record _ fs, .record vs => fitsF fs vs
+    | .optional _, .none => true
+    | .optional t, .some x => fitsT t x
+    | .union cs, .none => hasNullL cs.toList
+    | .union cs, .case i x => fitsC cs (toFull cs.toList i) x
+    | .vector t _, .list vs => vs.all (fitsT t)
+    | .array _ _, _ => true
+    | .map _ _, _ => true
+    | _, _ => false
+  def fitsF : EFields → List Val → Bool
+    | .nil, [] => true
+    | .cons _ t r, v :: vs => fitsT t v && fitsF r vs
+    | _, _ => false
+  def fitsC : ECases → Nat → Val → Bool
+    | .cons t _, 0, x => fitsT t x
+    | .cons _ r, j + 1, x => fitsC r j x
+    | .null r, j + 1, x => fitsC r j x
+    | _, _, _ => false
+end
+
+/-- a protocol is well formed: distinct step names, well-formed step types -/
+def wfSteps (steps : List EStep) : Bool := stepNamesDistinct steps && steps.all fun s => wfT s.ty
 
 end Yardl.Evo
